@@ -100,6 +100,10 @@ type Engine struct {
 	env         map[string]Value
 	inInit      bool
 	crcExactMode bool
+	curIns      ssa.Instruction
+	maxLoop     int
+	mctx        *mergeCtx
+	mergeFailLog func(string)
 }
 
 type Observe struct {
@@ -140,6 +144,15 @@ func NewEngine(prog *ssa.Program, opts Options) (*Engine, error) {
 		strObjs: map[string]*Obj{}, inputByName: map[string]*Input{}, FuncsSeen: map[string]int{},
 		Models: map[string]bool{}, Cuts: map[string]int{}, Covers: map[string]bool{}, KnownSeen: map[string]string{},
 		inited: map[*ssa.Package]bool{}}
+	if os.Getenv("GOSMT_DEBUG") != "" {
+		cnt := 0
+		e.mergeFailLog = func(w string) {
+			if cnt < 30 {
+				fmt.Fprintf(os.Stderr, "merge failed at %s: %s\n", e.pos(e.curIns), firstN(w, 300))
+			}
+			cnt++
+		}
+	}
 	e.errType = types.NewNamed(types.NewTypeName(token.NoPos, nil, "vpError", nil), types.NewStruct(nil, nil), nil)
 	return e, nil
 }
@@ -465,12 +478,12 @@ func (e *Engine) checkSat(pc []*Term, extra *Term, want []*Term) (Result, []uint
 func (e *Engine) feasible(st *State, c *Term) bool {
 	t0 := time.Now()
 	r, _, _, _ := e.checkSat(st.pc, c, nil)
-	if os.Getenv("GOSMT_PROGRESS") != "" && time.Since(t0) > 2*time.Second {
+	if os.Getenv("GOSMT_PROGRESS") != "" && time.Since(t0) > 1*time.Second {
 		cs := "nil"
 		if c != nil {
 			cs = c.String()
 		}
-		fmt.Fprintf(os.Stderr, "[%s] slow feasibility check -> %v (%dms) cond=%s\n", e.harness, r, time.Since(t0).Milliseconds(), firstN(cs, 1500))
+		fmt.Fprintf(os.Stderr, "[%s] slow feasibility check -> %v (%dms) at %s cond=%s\n", e.harness, r, time.Since(t0).Milliseconds(), e.pos(e.curIns), firstN(cs, 300))
 		for i := len(st.pc) - 1; i >= 0 && i >= len(st.pc)-3; i-- {
 			fmt.Fprintf(os.Stderr, "      pc[%d]=%s\n", i, firstN(st.pc[i].String(), 1200))
 		}
@@ -653,7 +666,7 @@ func (e *Engine) crossCheck(pc []*Term, q *Term, ob *Obligation) {
 // terminate records the end of a path because of a panic.
 func (e *Engine) panicPath(st *State, kind string, ins ssa.Instruction) {
 	pos := e.pos(ins)
-	if st.noPanic {
+	if st.noPanic && !inHarnessSupport(ins) {
 		// known panic sites
 		for _, kp := range st.knownPan {
 			if strings.Contains(pos, kp.where) && e.opts.Known[kp.id] {
